@@ -99,8 +99,20 @@ class Normalizer:
             self.atoms[f] = a; self.defs[a] = f
         return self.atoms[f]
 
+    def merge_gp(self, b):
+        """merge the power atoms of one base inside every monomial of numerator and denominator"""
+        if not b.has(GP): return b
+        n, d = sp.fraction(sp.together(b))
+        def m(e):
+            tot = sp.Integer(0)
+            for term in sp.Add.make_args(sp.expand(e)):
+                c, mono = self.canon_mono(term); tot += c * mono
+            return tot
+        return m(n) / m(d)
+
     def _factor_all(self, b):
         """rational expression -> (rational content, [(factor, multiplicity, gp_key or None)])"""
+        b = self.merge_gp(b)
         gps = sorted(b.atoms(GP), key=sp.default_sort_key)
         tmp = {g: sp.Dummy('g%d' % i, positive=True) for i, g in enumerate(gps)}
         inv = {v: k for k, v in tmp.items()}
@@ -358,6 +370,10 @@ class Normalizer:
         if depth > 6: raise Undecided('nested atom definitions too deep')
         n, d = sp.fraction(sp.together(N))
         n = sp.expand(n)
+        for _ in range(6):
+            # nested fractions: keep clearing denominators until the numerator is a polynomial in its atoms
+            if not any(isinstance(q, sp.Pow) and q.exp.is_Integer and q.exp < 0 and not q.base.is_number for q in n.atoms(sp.Pow)): break
+            n = sp.expand(sp.fraction(sp.together(n))[0])
         if n == 0: return True, n
         # atoms whose definition mentions power atoms ("deep" atoms) hide relations between groups:
         # unfold their integer powers (outside GP bases), and level the integer part of their GP exponents per class
